@@ -89,7 +89,7 @@ def row_same(a, b):
     return all(same(a.get(k), b.get(k)) for k in set(a) | set(b))
 
 
-def table_diff(ref, got):
+def table_diff(ref, got, order=True):
     """None, or (mismatch kind, text)."""
     missing = sorted(set(ref) - set(got)); extra = sorted(set(got) - set(ref))
     if missing: return 'rows missing', f'no row with ids {missing[:3]} ({len(missing)} missing)'
@@ -98,6 +98,8 @@ def table_diff(ref, got):
         if len(got[k]) != len(ref[k]): return 'row repeated', f'ids {k}: {len(got[k])} rows instead of {len(ref[k])}'
         for r, g in zip(ref[k], got[k]):
             if not row_same(r, g): return 'values differ', f'ids {k}: {g} instead of {r}'
+    # the snapshots keep the table's row order (dict insertion order): equal Results list their rows in the same order
+    if order and list(ref) != list(got): return 'rows in another order', f'ids in table order {list(got)[:6]} instead of {list(ref)[:6]}'
     return None
 
 
@@ -314,7 +316,8 @@ class C02(Check):
         'evaluated again; the result must be right either way',
         'byte-identity of the final file and the position of records in it are not constrained; undecodable lines in the final file are tolerated as long '
         'as Result.from_file / Experiment.run cope with them',
-        'timing columns (predict_time, learn_time) are ignored; a column that is absent equals a column that is None; column order is not compared',
+        'timing columns (predict_time, learn_time) are ignored; a column that is absent equals a column that is None; column order is not compared; '
+        'the ROW order of all four tables is compared (a Result equal to the uninterrupted one lists the same rows in the same order)',
         'the version line may occur more than once in the final file (harmless); E/L/V/I records may not',
         'how often a triple that is NOT recorded is evaluated by the resumed run is not constrained (its rows must be right)',
         're-ordered logs are built from the real records of the real run, written through the real DiskSink(batch=1)',
@@ -515,7 +518,7 @@ class C02(Check):
             DiskSink(path, batch=1).write(lines)
             with open(path, 'rb') as f: L = f.read()
             st = self._load(path)
-            if st[0] != 'ok' or any(table_diff(s1[n], st[1][n]) for n, _ in TABLES):
+            if st[0] != 'ok' or any(table_diff(s1[n], st[1][n], order=False) for n, _ in TABLES):     # (row order: judged at the crash points)
                 raise HarnessError(f'the re-ordered complete log of {key} does not decode to the same Result: {st[1]!r}')
         if os.path.exists(path): os.unlink(path)
         a = analyse(L, gz)
